@@ -20,21 +20,42 @@ def radialEval [Add K] [Mul K] [Zero K] [One K] [IntCast K] (n m : Nat) (rho : K
 /-- square of Noll's normalisation constant: `n+1` for m = 0, `2(n+1)` otherwise -/
 def normSq (n : Nat) (m : Int) : Nat := if m = 0 then n + 1 else 2 * (n + 1)
 
+/-- the radial polynomial as a list of (coefficient, exponent) terms in the order the code accumulates them -/
+def radialTerms (n m : Nat) : List (Int × Nat) :=
+  if (n - m) % 2 = 1 then [] else (List.range ((n - m) / 2 + 1)).map fun k => (radialCoeff n m k, n - 2 * k)
+
+def evalTerms [Add K] [Mul K] [Zero K] [One K] [IntCast K] (ts : List (Int × Nat)) (rho : K) : K :=
+  ts.foldl (fun acc t => acc + ((t.1 : Int) : K) * powK rho t.2) 0
+
+/-- a mode with the radial part `Rv` already evaluated: normalisation · radial · azimuthal · mask, with the operand order of the
+code (`np.sqrt(2) * np.sqrt(n+1) * R(m, n, rho) * np.cos(m*theta) * mask`; `Z = mask` for j = 1). The mask enters as the factor
+1 or 0, as in the code — so at `Float` a non-finite radial or azimuthal factor outside the mask gives NaN, not 0. -/
+def zernCore [Add K] [Mul K] [Zero K] [One K] [IntCast K] (sqrtN : Nat → K) (cos sin : K → K)
+    (n : Nat) (m : Int) (normalize : Bool) (Rv theta : K) (mask : Bool) : K :=
+  let mk : K := if mask then 1 else 0
+  if m = 0 then
+    if n = 0 then mk
+    else if normalize then sqrtN (n + 1) * Rv * mk else Rv * mk
+  else if 0 < m then
+    if normalize then sqrtN 2 * sqrtN (n + 1) * Rv * cos ((m : K) * theta) * mk
+    else Rv * cos ((m : K) * theta) * mk
+  else
+    if normalize then sqrtN 2 * sqrtN (n + 1) * Rv * sin ((m : K) * theta) * mk
+    else Rv * sin ((m : K) * theta) * mk
+
 /-- one sample of `zernike(mask, j, normalize, rho, theta)`; `sqrtN k` = √k -/
 def zernAt [Add K] [Mul K] [Zero K] [One K] [IntCast K] (sqrtN : Nat → K) (cos sin : K → K)
     (j : Nat) (normalize : Bool) (rho theta : K) (mask : Bool) : K :=
+  zernCore sqrtN cos sin (nollN j) (nollM j) normalize (radialEval (nollN j) (nollM j).natAbs rho) theta mask
+
+/-- the same function with everything that depends only on `j` (Noll row, radial coefficient list) computed once; an evaluation
+strategy for the driver — `zernFast_eq` (Lemmas/Zernike.lean) proves it equal to `zernAt` -/
+def zernFast [Add K] [Mul K] [Zero K] [One K] [IntCast K] (sqrtN : Nat → K) (cos sin : K → K)
+    (j : Nat) (normalize : Bool) : K → K → Bool → K :=
   let n := nollN j
   let m := nollM j
-  if !mask then 0
-  else if m = 0 then
-    if n = 0 then 1
-    else if normalize then sqrtN (n + 1) * radialEval n 0 rho else radialEval n 0 rho
-  else if 0 < m then
-    if normalize then sqrtN 2 * sqrtN (n + 1) * radialEval n m.natAbs rho * cos ((m : K) * theta)
-    else radialEval n m.natAbs rho * cos ((m : K) * theta)
-  else
-    if normalize then sqrtN 2 * sqrtN (n + 1) * radialEval n m.natAbs rho * sin ((m : K) * theta)
-    else radialEval n m.natAbs rho * sin ((m : K) * theta)
+  let ts := radialTerms n m.natAbs
+  fun rho theta mask => zernCore sqrtN cos sin n m normalize (evalTerms ts rho) theta mask
 
 /-! ## `zernike_coordinates` -/
 
